@@ -2,8 +2,8 @@
 
 Three parties per case (a JSON text, or a malformed text):
   go     c14n.CanonicalJSON on /repo (harness/c07.go)
-  model  rocq/Json/C14n.v `canon_at cfg` extracted to OCaml; cfg = the switches of the four repairable
-         defects; `canon` of the theorems = all switches on (the code after fixes/C07-*.diff)
+  model  rocq/Json/C14n.v `canon_at cfg` extracted to OCaml; cfg = the switches of the six repaired
+         defects; `canon` of the theorems = all switches on (the code after every repair)
   P      this file: the specification read directly (py_valid / spec_canon), independent of the model
 
 The check first replays the witnesses of the `_refuted` theorems of Props/C07.v on Go to see which of
@@ -19,10 +19,11 @@ import math
 import re
 from vlib import *
 
-FIXED = 31
+FIXED = 63
 BIT = {"C07-comma-after-skipped-first-null-member": 1, "C07-negative-float-mangled": 2,
        "C07-incomplete-or-trailing-input-accepted": 4, "C07-out-of-range-number-becomes-null": 8,
-       "C07-invalid-name-of-null-member-accepted": 16, "C07-replacement-character-rejected": 0}
+       "C07-invalid-name-of-null-member-accepted": 16, "C07-negative-zero-float-keeps-sign": 32,
+       "C07-replacement-character-rejected": 0}
 TRUSTED = [
     "modelled, not verified: encoding/json's tokenizer (Json/Lexer.v) and strconv.ParseInt/ParseFloat/AppendFloat "
     "(Json/Number.v, exact-integer stand-ins) are Gallina re-implementations validated differentially by this check; "
@@ -34,11 +35,14 @@ TRUSTED = [
     "integers outside int64 and objects with duplicate keys are outside the property's domain (correspondence only)",
 ]
 
-# (finding id, text, today's result, result after the fix) - the same witnesses as the _refuted theorems
+# (finding id, text, result before the repair, result after all repairs[, model configuration of "before"])
+# - the same witnesses as the _refuted theorems.  "before" is the model with every switch off (canon_today)
+# unless a configuration is given: the sign of zero is only visible once negative floats are written at
+# all, its "before" is canon_signed_zero = configuration 31
 WITNESSES = [
     ("C07-comma-after-skipped-first-null-member", b'{"a":null,"b":1}', ("ok", b'{,"b":1}'), ("ok", b'{"b":1}')),
     ("C07-negative-float-mangled", b'-1.5', ("ok", b'-.01.5E0'), ("ok", b'-1.5E0')),
-    ("C07-negative-float-mangled", b'-0.0', ("ok", b'-.00E0'), ("ok", b'-0.0E0')),
+    ("C07-negative-float-mangled", b'-2e0', ("ok", b'-.02E0'), ("ok", b'-2.0E0')),
     ("C07-incomplete-or-trailing-input-accepted", b'', ("panic", None), ("err", None)),
     ("C07-incomplete-or-trailing-input-accepted", b'{"a":', ("panic", None), ("err", None)),
     ("C07-incomplete-or-trailing-input-accepted", b'[1,2', ("ok", b'[1,2]'), ("err", None)),
@@ -48,7 +52,15 @@ WITNESSES = [
     ("C07-invalid-name-of-null-member-accepted", b'{"\xff":null}', ("ok", b'{}'), ("err", None)),
     ("C07-invalid-name-of-null-member-accepted", b'{"\\ud800":null,"a":1}', ("ok", b'{"a":1}'), ("err", None)),
     ("C07-replacement-character-rejected", b'"\xef\xbf\xbd"', ("err", None), ("err", None)),
+    ("C07-negative-zero-float-keeps-sign", b'-0.0', ("ok", b'-0.0E0'), ("ok", b'0.0E0'), 31),
+    ("C07-negative-zero-float-keeps-sign", b'[0.0,-0e5]', ("ok", b'[0.0E0,-0.0E0]'), ("ok", b'[0.0E0,0.0E0]'), 31),
 ]
+WITNESSES = [wt if len(wt) == 5 else wt + (0,) for wt in WITNESSES]
+
+# the sign of zero: texts of negative (and positive) float zeros, alone and nested; exercised on every run
+ZERO_CORPUS = [b'-0.0', b'0.0', b'-0e0', b'0e0', b'-0.00E+5', b'-0e5', b'-0E-5', b'0.000', b'-0.000e-0', b'-1e-400', b'1e-400',
+               b'-0.0e-999', b'-4.9e-325', b'[-0.0]', b'[-0.0,0.0]', b'[0.0,-0e5]', b'{"a":-0.0}', b'{"b":0.0,"a":-0.0,"c":null}',
+               b'{"z":[-0.0,{"y":-0e1,"x":0}],"n":-0}', b' [ -0.0 , -0 , 0 , 0.0 ] ', b'[-0.0,-1.0,-2e0,-5e-324]']
 
 I64MIN, I64MAX = -2 ** 63, 2 ** 63 - 1
 
@@ -100,7 +112,8 @@ class F:
         self.v = v
 
     def __eq__(self, o):
-        return isinstance(o, F) and (self.v == o.v and math.copysign(1, self.v) == math.copysign(1, o.v))
+        # -0.0 and 0.0 are the same number: zero has no sign (README rule 6.1)
+        return isinstance(o, F) and self.v == o.v
 
     def __hash__(self):
         return hash(self.v)
@@ -187,9 +200,9 @@ def spec_string(s):
 def spec_float(f):
     if f != f or f in (math.inf, -math.inf):
         raise OverflowError
-    sign = "-" if math.copysign(1, f) < 0 else ""
     if f == 0:
-        return sign + "0.0E0"
+        return "0.0E0"      # zero carries no minus sign (README rule 6.1) and its float form is the example's 0.0E0
+    sign = "-" if f < 0 else ""
     t = decimal.Decimal(repr(abs(f))).as_tuple()
     ds = "".join(map(str, t.digits)).lstrip("0")
     e = t.exponent
@@ -314,6 +327,10 @@ def m_negfloat(text, v):
     return any(isinstance(x, F) and math.copysign(1, x.v) < 0 for x in walk(v))
 
 
+def m_negzero(text, v):
+    return any(isinstance(x, F) and x.v == 0 and math.copysign(1, x.v) < 0 for x in walk(v))
+
+
 def m_range(text, v):
     return any(isinstance(x, F) and x.v in (math.inf, -math.inf) for x in walk(v))
 
@@ -358,6 +375,8 @@ def classify(text):
             ids.append("C07-comma-after-skipped-first-null-member")
         if m_negfloat(text, v):
             ids.append("C07-negative-float-mangled")
+        if m_negzero(text, v):
+            ids.append("C07-negative-zero-float-keeps-sign")
         if m_range(text, v):
             ids.append("C07-out-of-range-number-becomes-null")
         if m_fffd(text, v):
@@ -702,12 +721,12 @@ def malformed_cases(c, quick, valid_texts):
 # ------------------------------------------------------------------------------------------------
 def detect_flags(c):
     """replays the witnesses of the _refuted theorems on Go; returns the configuration of the tree under test"""
-    lines = [line(t) for _, t, _, _ in WITNESSES]
+    lines = [line(wt[1]) for wt in WITNESSES]
     go = [res(o) for o in run_go(lines, shards=1)]
-    mt = [res(o) for o in run_oracle([line(t, 0) for _, t, _, _ in WITNESSES], shards=1)]
-    mf = [res(o) for o in run_oracle([line(t, FIXED) for _, t, _, _ in WITNESSES], shards=1)]
+    mt = [res(o) for o in run_oracle([line(wt[1], wt[4]) for wt in WITNESSES], shards=1)]
+    mf = [res(o) for o in run_oracle([line(wt[1], FIXED) for wt in WITNESSES], shards=1)]
     state = {}
-    for (fid, t, today, fixed), g, a, b in zip(WITNESSES, go, mt, mf):
+    for (fid, t, today, fixed, _base), g, a, b in zip(WITNESSES, go, mt, mf):
         def proj(r):
             return (r[0], r[1] if r[0] == "ok" else None)
         if proj(a) != today or proj(b) != fixed:
@@ -750,7 +769,7 @@ def run(c):
         c.report("extraction/oracle build failed: " + out[-800:], {"machinery": "oracle"}, no_input=True)
         return
     flags = detect_flags(c)
-    c.cov["tree_configuration"] = {"flags": flags, "meaning": "bit set = defect repaired in the tree under test (1 comma, 2 negative float, 4 eof/trailing, 8 range, 16 name of null member)"}
+    c.cov["tree_configuration"] = {"flags": flags, "meaning": "bit set = defect repaired in the tree under test (1 comma, 2 negative float, 4 eof/trailing, 8 range, 16 name of null member, 32 sign of float zero)"}
 
     # ---- cases
     cases = []          # (stream, text)
@@ -758,13 +777,14 @@ def run(c):
     cases += key_pairs(c, quick)
     cases += int_cases(c, quick)
     cases += float_cases(c, quick)
+    cases += [("float-zero", t) for t in ZERO_CORPUS]
     groups = nested_cases(c, quick)
     gidx = {}
     for gi, (v, texts) in enumerate(groups):
         for t in texts:
             gidx[len(cases)] = gi
             cases.append(("nested-3-syntaxes", t))
-    valid_pool = [t for s, t in cases if s in ("nested-3-syntaxes", "key-pair", "decimal-grid")][::3] + [t for s, t in cases if s == "single-char-key"][::40]
+    valid_pool = [t for s, t in cases if s in ("nested-3-syntaxes", "key-pair", "decimal-grid")][::3] + list(ZERO_CORPUS) + [t for s, t in cases if s == "single-char-key"][::40]
     cases += malformed_cases(c, quick, valid_pool)
 
     texts = [t for _, t in cases]
@@ -773,7 +793,7 @@ def run(c):
     mf = md if flags == FIXED else [res(o) for o in balanced(run_oracle, [line(t, FIXED) for t in texts])]
 
     # the computable float premise of the round-trip theorems (floats_okb) on every text that may hold a float
-    prem_idx = [i for i, (st_, t) in enumerate(cases) if st_ in ("decimal-grid", "decimal-random", "nested-3-syntaxes")]
+    prem_idx = [i for i, (st_, t) in enumerate(cases) if st_ in ("decimal-grid", "decimal-random", "float-zero", "nested-3-syntaxes")]
     prem = balanced(run_oracle, ["c07 premise " + w(bytes(cases[i][1])) for i in prem_idx])
     prem_held = 0
     for i, o in zip(prem_idx, prem):
@@ -830,11 +850,14 @@ def run(c):
                 okg, clause = False, "canonical form does not canonicalise to itself (second pass gives %r)" % (again.get(g[1]),)
         if not okg:
             ids = [f for f in classify(t) if not (flags & BIT[f]) or BIT[f] == 0]
-            if ids and g == a:
-                for f in ids[:1]:
-                    c.report("%r -> %r (%s)" % (t[:80], g, clause[:100]), {"case": t.decode("latin1")}, finding_id=f)
-                    if not c.known(f):
-                        pass
+            if ids and g == a and c.known(ids[0]):
+                c.report("%r -> %r (%s)" % (t[:80], g, clause[:100]), {"case": t.decode("latin1")}, finding_id=ids[0])
+            elif ids and g == a:
+                # a repaired defect is back in the tree under test: one violation per defect, shortest input
+                add("property", ids[0], t, "c14n.CanonicalJSON(%r) = %r: %s; specified: %r (repaired defect %s is present in this tree)"
+                    % (t, g, clause, exp, ids[0]),
+                    {"case": t.decode("latin1"), "stream": stream, "implementation": g, "specification": exp, "clause": clause,
+                     "finding": ids[0], "rerun": "echo '%s' | bin/vharness" % line(t)}, fid=ids[0])
             else:
                 add("property", clause[:48], t, "c14n.CanonicalJSON(%r) = %r: %s; specified: %r" % (t, g, clause, exp),
                     {"case": t.decode("latin1"), "stream": stream, "implementation": g, "specification": exp, "clause": clause,
@@ -856,7 +879,7 @@ def run(c):
     c.cov["result_kinds"] = kinds
     c.cov["rule"] = ("cases = JSON texts: every sampled Unicode scalar value and every ASCII control character as a one-character string and as a "
                      "one-character key (thorough: all 1,112,064 scalar values), ordered key pairs over a 160-key alphabet, integers at the int64 and "
-                     "power-of-ten/two boundaries, a decimal-mantissa x exponent grid of either sign and random/half-way decimals, random values nested "
+                     "power-of-ten/two boundaries, a decimal-mantissa x exponent grid of either sign and random/half-way decimals, float zeros of either sign, random values nested "
                      "to depth 6 each in 3 concrete syntaxes, and malformed texts (truncation at every byte, trailing data, corruption, bad escapes, "
                      "invalid UTF-8); distinct = distinct texts per stream; non-trivial = every text (each is judged by P and compared with the model)")
     for s in ("single-char-string", "key-pair", "decimal-grid", "nested-3-syntaxes", "malformed-truncation"):
@@ -865,7 +888,7 @@ def run(c):
                 c.sample({"stream": s, "case": t.decode("latin1")[:120]}, limit=8)
                 break
     # interesting counters must not be zero
-    for need in ("single-char-string", "single-char-key", "key-pair", "integer", "decimal-grid", "decimal-random", "nested-3-syntaxes",
+    for need in ("single-char-string", "single-char-key", "key-pair", "integer", "decimal-grid", "decimal-random", "float-zero", "nested-3-syntaxes",
                  "malformed-truncation", "malformed-trailing", "malformed-corrupted"):
         if not c.cov["streams"].get(need, {}).get("evaluations"):
             c.report("generator stream %s produced no case" % need, {"machinery": need}, no_input=True)
@@ -907,6 +930,7 @@ def replay(path):
         print("input:          %r" % t)
         print("implementation:", res(run_go([line(t)], shards=1)[0]))
         print("model (unfixed):", res(run_oracle([line(t, 0)], shards=1)[0]))
+        print("model (signed zero, configuration 31):", res(run_oracle([line(t, 31)], shards=1)[0]))
         print("model (fixed):  ", res(run_oracle([line(t, FIXED)], shards=1)[0]))
         k, v = py_parse(t)
         try:
